@@ -24,6 +24,16 @@ type envState struct {
 	locks      map[*Value]int
 	budgetLabel string
 	budgetAt    int64
+	probe       *loopProbe
+}
+
+// loopProbe: the harness observes the loop-carried variables (SSA phis, matched by source variable name) of one
+// function every time control arrives at the loop header that carries all of them.
+type loopProbe struct {
+	fn     string
+	vars   []string
+	f      Value
+	blocks map[*ssa.BasicBlock][]*ssa.Phi // nil entry: block does not match
 }
 
 type hashApp struct {
@@ -378,6 +388,17 @@ func init() {
 		} else {
 			ex.env.allocBound = b
 		}
+		return nil
+	}
+	harnessAPI["verifProbeLoop"] = func(ex *Exec, fn *ssa.Function, a []Value) Value {
+		// verifProbeLoop(fn, "v1,v2", f): f(vals []int) is called at every arrival at the loop header of function fn
+		// whose phi nodes carry all the named source variables (vals in the order given).  An empty fn removes the probe.
+		name := argStr(ex, a[0])
+		if name == "" {
+			ex.env.probe = nil
+			return nil
+		}
+		ex.env.probe = &loopProbe{fn: name, vars: strings.Split(argStr(ex, a[1]), ","), f: a[2], blocks: map[*ssa.BasicBlock][]*ssa.Phi{}}
 		return nil
 	}
 	harnessAPI["verifStepBudget"] = func(ex *Exec, fn *ssa.Function, a []Value) Value {
